@@ -277,6 +277,9 @@ func (fe *analyticFieldEngine) evaluateMultiColumn(s *Stream, row map[string]any
 				out = d
 			}
 			cols[out] = values[valIdx]
+			if isMissingColumnRef(nameExpr, row) {
+				cols[out] = nil // a column the row does not carry is NULL, not its own name
+			}
 		}
 	}
 	partKey := fe.partitionKey(row)
